@@ -109,7 +109,7 @@ OFFSETS = {"0": (0, 0, 0), "+500": (500000, 500000, 500000),
            "mixed": (500000, -500000, 0)}
 RADII = (0, 10000, 25000)  # 1e-4 Angstrom
 CHARGES = (0.5, -0.75, 0.25)
-LAYOUTS = ("fixed", "ws", "compact")
+LAYOUTS = ("fixed", "ws", "compact", "fixed5")
 
 P_VALUES = {"cfac": (1.7, 1.0, 3.0), "fadd": (20.0, 0.0, 50.0),
             "space": (0.5, 0.25, 1.0)}
@@ -190,6 +190,10 @@ def pqr_line(layout, idx, atom):
     its column completely with a leading digit (no separator to the field
     before it)."""
     xm, ym, zm, r4, q, rec = atom
+    if layout == "fixed5":
+        # five-digit serials: no blank between HETATM and the serial number
+        line, touches = pqr_line("fixed", idx + 9999, atom)
+        return line, touches
     if layout == "compact":
         return (f"{rec} {idx + 1} C ALA A 1 {xm / 1000.0:.3f} "
                 f"{ym / 1000.0:.3f} {zm / 1000.0:.3f} {q:.4f} "
@@ -222,7 +226,8 @@ def pqr_lines(layout, atoms):
         touch = touch or t
     lctx = layout
     if touch:
-        lctx = "fixed:coordinate-fills-its-column"
+        lctx = ("fixed:coordinate-fills-its-column" if layout == "fixed"
+                else layout + ":coordinate-fills-its-column")
     return lines, lctx
 
 
